@@ -219,6 +219,7 @@ def run(case, whole=False):
                 cur = None
 
         steps = 0
+        recv_log = []          # the segments in the order they were actually delivered: "c:<hex>" / "s:<hex>"
         while True:
             steps += 1
             if steps > 5000: raise RuntimeError("schedule does not terminate")
@@ -228,9 +229,12 @@ def run(case, whole=False):
                 break
             pick_client = can_c and (not can_s or (sched.pop(0) if sched else 0) == 1)
             if pick_client:
+                recv_log.append("c:" + csegs[ci].hex())
                 w.recv("client", csegs[ci]); ci += 1
             else:
+                if cur[1]: recv_log.append("s:" + cur[1][0].hex())
                 server_step()
+        mark_quiescent = len(w.sent_log)
         # quiescent: the client half-closes
         w.peer_close("client")
 
@@ -248,6 +252,11 @@ def run(case, whole=False):
             else:
                 out["server_out"][lab] = out["server_out"].get(lab, "") + data.hex()
         out["client_out"] = cl
+        # C02's tie of the two coupled readers (Model/C02 sysRun): what was delivered, and everything the proxy sent before
+        # the final half-close of the client, in emission order
+        out["recv_log"] = recv_log
+        out["sent_log"] = [[lab, ("ERR%d" % pages.pages[data]) if (lab == "client" and data in pages.pages) else data.hex()]
+                           for lab, data in w.sent_log[:mark_quiescent]]
         # order in which server connections received their first byte, and the emission order of messages
         out["server_order"] = []
         for lab, data in w.sent_log:
